@@ -12,7 +12,7 @@ import copy as _copy
 
 import numpy as np
 
-from ..core import EventLog, RunResult, Violation, call, exc_name
+from ..core import EventLog, RunResult, Violation, call, exc_name, match_known
 
 PROP = "C01"
 TIERS = {"quick": 20000, "thorough": 2000000}
@@ -84,7 +84,7 @@ class Reject(Exception):
 
 def np_index(spec):
     """The index object handed to biotite. 'as' selects another spelling numpy accepts for the same index:
-    a numpy integer scalar, a Python list of ints / bools, an int32 array."""
+    a numpy integer scalar, a Python list of ints / bools, an int32 array, a read-only array."""
     t = spec["t"]
     how = spec.get("as")
     if t == "int":
@@ -92,11 +92,19 @@ def np_index(spec):
     if t == "slice":
         return slice(*spec["v"])
     if t == "mask":
-        return [bool(x) for x in spec["v"]] if how == "list" and spec["v"] else np.array(spec["v"], dtype=bool)
+        if how == "list" and spec["v"]:
+            return [bool(x) for x in spec["v"]]
+        a = np.array(spec["v"], dtype=bool)
+        if how == "ro":
+            a.flags.writeable = False  # a read-only array (np.broadcast_to, np.frombuffer, memory maps hand out such)
+        return a
     if t == "arr":
         if how == "list" and spec["v"]:
             return [int(x) for x in spec["v"]]
-        return np.array(spec["v"], dtype=np.int32 if how == "int32" else np.int64)
+        a = np.array(spec["v"], dtype=np.int32 if how == "int32" else np.int64)
+        if how == "ro":
+            a.flags.writeable = False
+        return a
     if t == "range":
         return range(*spec["v"])
     if t == "ell":
@@ -595,9 +603,9 @@ def spell(rng, spec):
             if sub["t"] == "int":
                 sub["as"] = "npint"
             elif sub["t"] == "mask":
-                sub["as"] = "list"
+                sub["as"] = rng.choice(["list", "list", "ro"])
             elif sub["t"] == "arr":
-                sub["as"] = rng.choice(["list", "int32"])
+                sub["as"] = rng.choice(["list", "int32", "ro"])
     return spec
 
 
@@ -1242,6 +1250,25 @@ class Sim:
             return "skip"
         f = self.real(op)
         st, v = call(f)
+        if st == "exc" and name == "index" and isinstance(v, ValueError):
+            # a recorded defect of the compiled bond list (see known_findings.json): a read-only boolean mask on the
+            # atom axis of an object that carries a bond list; it is counted, and the history goes on with the same
+            # mask as a writable array (the rest of the generated history builds on this operation's result)
+            idx = op["idx"]
+            ax = idx.get("b", idx) if idx["t"] in ("2d", "ell2") or self.ms[op["src"]].kind == "array" else None
+            src_m = self.ms[op["src"]]
+            if ax is not None and ax.get("t") == "mask" and ax.get("as") == "ro" and src_m.bonds is not None:
+                detail = {"op": name, "got": exc_name(v), "msg": str(v)[:200], "readonly_mask": True, "bonded": True}
+                k = match_known(PROP, "op:raised", detail)
+                if k is not None:
+                    self.res.known.append((k["id"], k["text"]))
+                    self.res.stats["known:" + k["id"]] += 1
+                    import copy as _copy
+
+                    op2 = _copy.deepcopy(op)
+                    ax2 = op2["idx"].get("b", op2["idx"]) if op2["idx"]["t"] in ("2d", "ell2") else op2["idx"]
+                    del ax2["as"]
+                    st, v = call(self.real(op2))
         if reject is not None:
             self.res.stats["probe:rejected-op"] += 1
             self.res.stats["fault:rejected-" + name] += 1
